@@ -150,6 +150,9 @@ def run(ctx):
     real = pipeline.real_runner()
     ref = pipeline.ref_worker()
     FALSY = ["None", "0", "''", "[]", "{}", "False", "0.0", "b''", "()"]
+    # (the last form passes the path by keyword: refused by the analysis or right, never silently ignored)
+    LOAD_FORMS = ["dds.load('/v/p')", "dict(x=dds.load('/v/p'))['x']", "[dds.load('/v/p')][0]", "dds.load('/v/p') if True else None",
+                  "dict(y=1, x=dds.load('/v/p'))['x']", "dds.load(path='/v/p')"]
     for fi, falsy in enumerate(FALSY if thorough else rng.sample(FALSY, 5) + ["None"]):
         base = tempfile.mkdtemp(prefix="ddsverif_c09v_")
         pkg = "c9v_%d_%d" % (os.getpid(), fi)
@@ -165,8 +168,7 @@ def run(ctx):
                        "def f0():\n    a = dds.keep('/v/p', prod)\n    b = dds.keep('/v/r', reader)\n    c = dds.load('/v/p')\n"
                        "    return term('f0', repr(a), b, repr(c))\n" % (expr, ["", "    import dds\n", "    from dds import load\n    import dds\n"][fi % 3],
                           # where the load sits in the statement: alone, as a keyword argument, inside a display, in a conditional expression
-                          ["dds.load('/v/p')", "dict(x=dds.load('/v/p'))['x']", "[dds.load('/v/p')][0]", "dds.load('/v/p') if True else None",
-                           "dict(y=1, x=dds.load('/v/p'))['x']"][(fi + step) % 5 if False else fi % 5]))
+                          LOAD_FORMS[fi % len(LOAD_FORMS)]))
                 os.makedirs(os.path.join(base, pkg), exist_ok=True)
                 open(os.path.join(base, pkg, "__init__.py"), "w").close()
                 with open(os.path.join(base, pkg, "main.py"), "w") as fh:
@@ -180,6 +182,9 @@ def run(ctx):
                 res.count("falsy_value_steps")
                 res.nontrivial("falsy %s step %d" % (falsy, step))
                 if rr.get("error") is not None:
+                    continue
+                if "path=" in LOAD_FORMS[fi % len(LOAD_FORMS)] and r["error"] is not None and r["error"].get("kind") == "dds":
+                    res.count("load_with_keyword_path_refused")
                     continue
                 if r["error"] is not None or r["value"] != rr["value"]:
                     res.violations.append({"what": "a kept value %s is not what dds.load returns afterwards: dds gives %r (error %s), plain execution %r" % (
